@@ -1,15 +1,19 @@
 Require Import WS.Base.Bytes WS.Base.Tape.
 Require WS.Cases.C13 WS.Cases.C03 WS.Cases.C04 WS.Cases.C05 WS.Cases.C06 WS.Cases.C08 WS.Cases.C17 WS.Cases.C07r.
+Require WS.Cases.C02 WS.Cases.C10 WS.Cases.C20.
 
 Definition judge_any (kind:N) (t:tape) : tape :=
   match kind with
   | 13 => C13.judge t
+  | 2 => C02.judge t
   | 3 => C03.judge t
   | 4 => C04.judge t
   | 5 => C05.judge t
   | 6 => C06.judge t
   | 7 => C07r.judge t
   | 8 => C08.judge t
+  | 10 => C10.judge t
   | 17 => C17.judge t
+  | 20 => C20.judge t
   | _ => v_badtape
   end.
